@@ -9,7 +9,7 @@ from symv.named import N, Raised, Surprise
 
 META = {
     "level": "exploration",
-    "level_text": "Algebraic-law monitors on every generated fermionic array: <x|x> = ||x||^2 through conj and through dagger (both operand orders, both contraction modes, scalar form) whenever all legs are ket-like or the dual-leg option is on; conj and dagger are involutions (values, indices, labels); dagger == conj followed by the fermionic reversal for both option values; conj agrees element for element with the GradedDense adjoint. Network law: 1-3 tensor networks conjugated tensor by tensor, bra-like dangling legs sign-flipped, <psi|psi> contracted along random routes equals ||psi||^2 (psi evaluated by the graded model) with no label left over. Exact arithmetic on integer data. Later additions: arrays carrying 2-3 labels, kets contracted before conjugation, in-place forms of conj / dagger for both option values, .H read - change in place - read again, subjects whose sign table names removed blocks (mirror sectors present).",
+    "level_text": "Algebraic-law monitors on every generated fermionic array: <x|x> = ||x||^2 through conj and through dagger (both operand orders, both contraction modes, scalar form) whenever all legs are ket-like or the dual-leg option is on; conj and dagger are involutions (values, indices, labels); dagger == conj followed by the fermionic reversal for both option values; conj agrees element for element with the GradedDense adjoint. Network law: 1-3 tensor networks conjugated tensor by tensor, bra-like dangling legs sign-flipped, <psi|psi> contracted along random routes equals ||psi||^2 (psi evaluated by the graded model) with no label left over. Exact arithmetic on integer data. Later additions: arrays carrying 2-3 labels, kets contracted before conjugation, in-place forms of conj / dagger for both option values, .H read - change in place - read again, subjects whose sign table names removed blocks (mirror sectors present). Round 9: every preserved rank-0 <x|x> read through a randomly chosen scalar protocol (item, float, complex, int, bool).",
     "technique": "runtime monitoring: algebraic-law oracles + reference-model (graded adjoint) + network history checker",
     "rule": (
         "one evaluation = one law instance checked on one array (or one route of one <psi|psi> network). Non-trivial = odd parity, or mixed dualness with the dual-leg option, "
